@@ -19,6 +19,9 @@ ASSUME_COMMON = [
     "machine floating-point arithmetic treated as mathematical real arithmetic in R-mode obligations",
     "ghost fold definitions (recursive sums/counts) are conservative definitional extensions (well-founded recursion on the last index)",
     "NumPy / SciPy / igraph behave as documented (DESIGN.md 3.3); exercised, not proved, by the bounded layer",
+    "the rowsum point-update lemma, the indexed-sum congruence / successor facts and the chunk-cover lemma are used as axioms "
+    "by the VC generator; they are machine-checked in /verif/lean (Lean 4 + Mathlib: re-run in the thorough tier, hash-compared in the quick tier)",
+    "aliasing: two array parameters of a kernel are distinct objects (callers pass freshly allocated or distinct arrays)",
 ]
 
 
